@@ -255,7 +255,13 @@ def handleTables : Handler := fun input impl =>
         let c02e := ((spec.decls.filter fun d => d.kind != .varargParam && d.kind != .self_ && !ignoreV1 d.name).filter fun d =>
             !mentioned.contains d.tok && !unusedV4.contains d.tok && !headerVictims.contains d.tok).head?.map fun d =>
           s!"[C02] unmentioned-not-reported: with only ignore_pattern = `^x` configured, `{d.name}` declared at token {d.tok} is never mentioned again but is not reported"
-        let c02f := ((unusedV3 ++ unusedV4).filter fun t => usedDecls.contains t && !unusedToks.contains t).head?.map fun t =>
+        -- the documented `observes: write` analysis (recorded finding of the default configuration) is the same under every section
+        let observedOnly := fun (t : Nat) => match σ.vars.toList.find? (·.ident = t) with
+          | some v =>
+            let an := v.references.filterMap fun id => (σ.refs[id]?).map (analyzeRef σ argObs v)
+            v.staticTable.isSome && an.any (fun a => match a with | .observedWrite _ => true | _ => false) && !an.any (· == .read)
+          | none => false
+        let c02f := ((unusedV3 ++ unusedV4).filter fun t => usedDecls.contains t && !unusedToks.contains t && !observedOnly t).head?.map fun t =>
           s!"[C02] used-but-reported: under a partial unused_variable section the variable declared at token {t} is reported unused although an expression uses its value"
         let items := [c01a, c01r, c01b, c01c, c01d, c02a, c02b, c02c, c02d, c02e, c02f, c03a, c03b, c03c].filterMap id
         let tags :=
